@@ -5,6 +5,7 @@ cd /verif/harness
 for d in */; do
   d=${d%/}
   [ "$d" = capnp ] && continue
+  [ -f $d/PACKAGE ] || continue
   pkg=$(cat $d/PACKAGE)
   for f in zz_verif_rt.go zz_verif_rt_native.go zz_verif_replay_test.go; do
     sed "s/^package capnp$/package $pkg/" capnp/$f > $d/$f
